@@ -192,6 +192,11 @@ class AliasMixin:
         aliases = copy.deepcopy(self.ALIASES)
 
         while True:
+            # Remove any variables that point to themselves: these cannot be
+            # shortened any further (and would otherwise keep the loop going
+            # forever)
+            aliases = {k: v for k, v in aliases.items() if k != v}
+
             # Check for chained aliases by testing to see if there are any
             # shared names between the keys and values. If so, there is at
             # least one link that can still be shortened
